@@ -70,6 +70,10 @@ Step(e) ==
                \o (IF (viaSpec \/ viaAlt) /\ \E i \in 1..n : R(i).len # written[i].len \/ R(i).dig # written[i].dig
                    THEN LET i == CHOOSE i \in 1..n : R(i).len # written[i].len \/ R(i).dig # written[i].dig
                         IN <<[diag |-> "element-bytes-differ", elem |-> i, explen |-> written[i].len, gotlen |-> R(i).len]>> ELSE <<>>)
+               \* the library's own heap reader must resolve every reference to the same bytes
+               \o (IF (viaSpec \/ viaAlt) /\ \E i \in 1..n : Has(e.els[i], "lib") /\ (~e.els[i].lib.ok \/ e.els[i].lib.len # R(i).len \/ e.els[i].lib.dig # R(i).dig)
+                   THEN LET i == CHOOSE i \in 1..n : Has(e.els[i], "lib") /\ (~e.els[i].lib.ok \/ e.els[i].lib.len # R(i).len \/ e.els[i].lib.dig # R(i).dig)
+                        IN <<[diag |-> "library-heap-reader-differs", elem |-> i, explen |-> R(i).len, gotlen |-> e.els[i].lib.len, why |-> e.els[i].lib.why]>> ELSE <<>>)
                \o (IF viaSpec /\ \E i \in 1..n : e.els[i].spec.count * BaseOf.size # written[i].len
                    THEN <<[diag |-> "element-length-field-wrong"]>> ELSE <<>>)
                \o LET RECURSIVE Go(_) Go(k) == IF k > Len(e.colls) THEN <<>> ELSE CollItems(e.colls[k]) \o Go(k + 1) IN Go(1)
